@@ -84,6 +84,7 @@ type Obs struct {
 	Err    bool              `json:"err"`
 	Taints []Taint           `json:"taints"`
 	NLog   int               `json:"nlog"`
+	Logs   []string          `json:"logs"` // hex of each new log line
 }
 
 type DVal struct {
@@ -373,5 +374,10 @@ func (w *World) observe(k *Know, browser string, r respObs, mails0, sms0, log0 i
 	o.Calls = append([]string{}, w.be.calls...)
 	o.Taints = w.scan(k, log0)
 	o.NLog = len(w.log.lines) - log0
+	w.log.mu.Lock()
+	for _, l := range w.log.lines[log0:] {
+		o.Logs = append(o.Logs, hx(l))
+	}
+	w.log.mu.Unlock()
 	return o
 }
